@@ -33,6 +33,52 @@ def oracle_serial(r: dict) -> list[str]:
     return msgs
 
 
+def cancel_run_case(k: int) -> dict:
+    """The task that called run() is cancelled k scheduler steps after the request (a `wait_for` time-out, a cancelled request
+    handler).  Whatever becomes of the request, the invariants hold: no child alive in a state other than 'running', never two."""
+    import asyncio
+    from .. import fakes, loop as ctl
+    from nextline.spawned import RunResult
+
+    async def main() -> dict:
+        sc = lifecycle.Scenario(0, 1, False, False)
+        await sc.setup()
+        await sc.op('start')
+        nl = sc.nl
+        t = asyncio.ensure_future(nl.run())
+        for _ in range(k):
+            await asyncio.sleep(0)
+        t.cancel()
+        try:
+            await t
+        except BaseException:  # noqa
+            pass
+        await lifecycle.settle()
+        out: dict = {'k': k, 'state_after_cancel': nl.state, 'live_after_cancel': len(sc.world.live()), 'max_live': len(sc.world.live())}
+        # the caller carries on: reset and run again
+        for _ in range(2):
+            for call in (nl.reset, nl.run):
+                try:
+                    await asyncio.wait_for(call(), timeout=5)
+                except BaseException:  # noqa
+                    pass
+                await lifecycle.settle()
+                out['max_live'] = max(out['max_live'], len(sc.world.live()))
+        for c in sc.world.live():
+            c.exit(RunResult(ret=None), exitcode=0)
+        await lifecycle.settle()
+        try:
+            await asyncio.wait_for(nl.close(), timeout=5)
+        except BaseException:  # noqa
+            pass
+        return out
+    fakes.install()
+    try:
+        return ctl.run(main, ctl.Fifo())
+    except (Exception, ctl.StepBudgetExceeded) as e:  # noqa
+        return {'k': k, 'error': f'{type(e).__name__}: {e}'}
+
+
 def run(chk: common.Check) -> None:
     chk.cov.rule = ('serial histories (as C01) over several run cycles; the number of live simulated children is sampled after every operation; '
                     'compared with the Lean model on child starts, state publications and call results; overlapping run/run, run/reset, reset/run, '
@@ -71,6 +117,21 @@ def run(chk: common.Check) -> None:
             oracle_fail.append((c, [f'{c["max_live_children"]} child processes alive at once (overlapping calls {c["calls"]})'], None))
         if c['child_alive_at_finished']:
             oracle_fail.append((c, [f"'finished' published while a child was alive (overlapping calls {c['calls']})"], 'overlap_child_alive_at_finished'))
+    for k in range(2, 10):        # (k = 1 lands in the window of open finding F-A3: the object is left in 'running' without a run)
+        r = cancel_run_case(k)
+        chk.cov.case(('cancel-run-caller', k))
+        chk.cov.count('kinds', 'run-caller-cancelled')
+        m = []
+        if 'error' in r:
+            m.append(f'scenario failed: {r["error"]}')
+        else:
+            if r['live_after_cancel'] and r['state_after_cancel'] != 'running':
+                m.append(f"the caller of run() was cancelled {k} scheduler steps after the request: state {r['state_after_cancel']} with "
+                         f"{r['live_after_cancel']} child process(es) alive")
+            if r['max_live'] > 1:
+                m.append(f"the caller of run() was cancelled {k} steps after the request, then reset()/run(): {r['max_live']} child processes alive at once")
+        if m:
+            oracle_fail.append(({'cancel_run_caller': r}, m, None))
     # real spawn children: when 'finished' is published no child process of the object is alive — also for a script whose process
     # takes seconds to exit after the script has returned (a non-daemon thread it left behind, thread tracing off)
     rs = [{'statement': 'import threading, time\nthreading.Thread(target=time.sleep, args=(4.5,)).start()\nx = 1\n', 'mode': 'continuous',
